@@ -41,13 +41,13 @@ var (
 	c09Paths    = []string{"rules/a.yml", "rules/sub/b.yml", "rules/b.yml"}
 	c09LabKeys  = []string{"team", "severity", "env"}
 	c09LabVals  = []string{"x", "y", "page", "prod", "xy"}
-	c09KeyPats  = []string{"team", "team|env", "sev.*", ".*", "t.+m", "env|"}
+	c09KeyPats  = []string{"team", "team|env", "sev.*", ".*", "t.+m", "env|", "team|severity", ".*e.*", "(env|severity)", "[a-z]+"}
 	c09ValPats  = []string{"x", "x|y", "page", ".+", "p.*", "y|prod", "(x|page)"}
 	c09AnnKeys  = []string{"summary", "link", "runbook"}
 	c09AnnVals  = []string{"s", "http://x", "ok", "page"}
 	c09ForPats  = []string{"5m", "> 1m", "<= 5m", "!= 0s", ">= 10m", "< 1h", "= 5m", "0", "> 0"}
 	c09KeepPats = []string{"5m", "> 1m", "<= 5m", "garbage", "~ 5m", "> x", "!= 1h", ">= 0s", ">  5m", " 5m"}
-	c09Durs     = []string{"5m", "0s", "1h", "1m", "10m", "30s", "1m30s", "0"}
+	c09Durs     = []string{"5m", "0s", "1h", "1m", "10m", "30s", "1m30s", "0", "abc", "5 m"}
 	c09States   = []string{"any", "added", "modified", "renamed", "removed", "unmodified"}
 	c09Cmds     = []string{"ci", "lint", "watch"}
 )
@@ -118,6 +118,64 @@ func c09GenConfig(r *rand.Rand, k int) string {
 		}
 		for j := 0; j < ni; j++ {
 			b.WriteString(c09GenBlock(r, "ignore", p))
+		}
+		fmt.Fprintf(&b, "  label \"marker_%d\" {\n    required = true\n    comment = \"k%d\"\n  }\n}\n", i, i)
+	}
+	return b.String()
+}
+
+// c09CondKinds: the nine conditions of a match/ignore block, in the order of docs/configuration.md
+var c09CondKinds = []string{"path", "name", "kind", "command", "state", "label", "annotation", "for", "keep_firing_for"}
+
+func c09OneCond(r *rand.Rand, cond string) string {
+	switch cond {
+	case "path":
+		return fmt.Sprintf("    path = %s\n", hclStr(pick(r, c09PathPats)))
+	case "name":
+		return fmt.Sprintf("    name = %s\n", hclStr(pick(r, c09NamePats)))
+	case "kind":
+		return fmt.Sprintf("    kind = %q\n", pick(r, []string{"alerting", "recording"}))
+	case "command":
+		return fmt.Sprintf("    command = %q\n", pick(r, c09Cmds))
+	case "state":
+		st := c08Subset9(r, c09States, 0.3)
+		if len(st) == 0 {
+			st = []string{pick(r, c09States)}
+		}
+		return fmt.Sprintf("    state = %s\n", hclList(st))
+	case "label":
+		return fmt.Sprintf("    label %s {\n      value = %s\n    }\n", hclStr(pick(r, c09KeyPats)), hclStr(pick(r, c09ValPats)))
+	case "annotation":
+		return fmt.Sprintf("    annotation %s {\n      value = %s\n    }\n", hclStr(pick(r, []string{"summary", "sum.*|link", ".*", "link", "link|runbook", "[a-z]+"})), hclStr(pick(r, []string{"s", "s|ok", ".+", "http.*", "page", "ok|page"})))
+	case "for":
+		return fmt.Sprintf("    for = %s\n", hclStr(pick(r, c09ForPats)))
+	default:
+		return fmt.Sprintf("    keep_firing_for = %s\n", hclStr(pick(r, c09KeepPats)))
+	}
+}
+
+// c09GenFocusConfig: K rule blocks, block i has ONE match or ignore block whose only condition (sometimes a second
+// one is added) is of kind c09CondKinds[(off+i) mod 9]: every condition kind is exercised on its own, in both roles.
+func c09GenFocusConfig(r *rand.Rand, k int, off int) string {
+	var b strings.Builder
+	for i := 0; i < k; i++ {
+		cond := c09CondKinds[(off+i)%len(c09CondKinds)]
+		body := c09OneCond(r, cond)
+		if r.Intn(4) == 0 {
+			other := pick(r, c09CondKinds)
+			if other != cond {
+				body += c09OneCond(r, other)
+			}
+		}
+		b.WriteString("rule {\n")
+		switch r.Intn(4) {
+		case 0:
+			b.WriteString("  ignore {\n" + body + "  }\n")
+		case 1:
+			// two alternatives: the block applies when either holds
+			b.WriteString("  match {\n" + body + "  }\n  match {\n" + c09OneCond(r, cond) + "  }\n")
+		default:
+			b.WriteString("  match {\n" + body + "  }\n")
 		}
 		fmt.Fprintf(&b, "  label \"marker_%d\" {\n    required = true\n    comment = \"k%d\"\n  }\n}\n", i, i)
 	}
@@ -226,6 +284,72 @@ func c09GenFile(r *rand.Rand, path string, allowOverride bool) c09FileSpec {
 				keep = [][2]string{{"other", "z"}}
 			}
 			f.Rules[i].Labels = keep
+		}
+	}
+	return f
+}
+
+// c09GenFileRich: like c09GenFile but every rule sees several labels (>= 2 group labels, >= 2 own labels) and every
+// alerting rule has >= 2 annotations, so that key patterns matching several names meet mixed value verdicts.
+func c09GenFileRich(r *rand.Rand, path string, allowOverride bool) c09FileSpec {
+	f := c09GenFile(r, path, allowOverride)
+	f.HasGroup = true
+	g := map[string]string{}
+	for _, kv := range f.GroupLabels {
+		g[kv[0]] = kv[1]
+	}
+	for _, k := range c09LabKeys {
+		if len(f.GroupLabels) >= 2 {
+			break
+		}
+		if _, ok := g[k]; !ok {
+			v := pick(r, c09LabVals)
+			f.GroupLabels = append(f.GroupLabels, [2]string{k, v})
+			g[k] = v
+		}
+	}
+	for i := range f.Rules {
+		ru := &f.Rules[i]
+		have := map[string]bool{}
+		for _, kv := range ru.Labels {
+			have[kv[0]] = true
+		}
+		keys := append([]string{}, c09LabKeys...)
+		r.Shuffle(len(keys), func(a, b int) { keys[a], keys[b] = keys[b], keys[a] })
+		for _, k := range keys {
+			if len(ru.Labels) >= 2 {
+				break
+			}
+			if have[k] {
+				continue
+			}
+			v := pick(r, c09LabVals)
+			if gv, ok := g[k]; ok && gv != v {
+				if !allowOverride {
+					continue
+				}
+				f.Override = true
+			}
+			ru.Labels = append(ru.Labels, [2]string{k, v})
+		}
+		if len(ru.Labels) == 0 {
+			ru.Labels = [][2]string{{"other", "z"}}
+		}
+		ru.HasLabels = true
+		if ru.Kind == "alerting" {
+			ru.HasAnn = true
+			ah := map[string]bool{}
+			for _, kv := range ru.Annotations {
+				ah[kv[0]] = true
+			}
+			for _, k := range c09AnnKeys {
+				if len(ru.Annotations) >= 2 {
+					break
+				}
+				if !ah[k] {
+					ru.Annotations = append(ru.Annotations, [2]string{k, pick(r, c09AnnVals)})
+				}
+			}
 		}
 	}
 	return f
@@ -655,6 +779,9 @@ func runC09(args []string) int {
 		dir := filepath.Join(cwd, "corr", fmt.Sprintf("s%04d", i))
 		k := 1 + r.Intn(4)
 		hcl := c09GenConfig(r, k)
+		if i%3 == 2 {
+			hcl = c09GenFocusConfig(r, 2+r.Intn(3), i/3*4)
+		}
 		cfg, err := scLoadConfig(dir, hcl)
 		if err != nil {
 			rep.hist("corr:config-rejected")
@@ -664,7 +791,11 @@ func runC09(args []string) int {
 			continue
 		}
 		for _, p := range c09Paths[:1+r.Intn(3)] {
-			writeFile(filepath.Join(dir, p), c09GenFile(r, p, r.Intn(2) == 0).yaml())
+			if i%3 == 2 {
+				writeFile(filepath.Join(dir, p), c09GenFileRich(r, p, r.Intn(2) == 0).yaml())
+			} else {
+				writeFile(filepath.Join(dir, p), c09GenFile(r, p, r.Intn(2) == 0).yaml())
+			}
 		}
 		if r.Intn(6) == 0 {
 			writeFile(filepath.Join(dir, "rules/broken.yml"), "groups:\n- name: g\n  rules:\n  - alert: Foo\n    bogus: 1\n    expr: up\n")
@@ -757,8 +888,17 @@ func c09Binary(r *rand.Rand, rep *runReport, cwd string, n int) {
 			Rules: []c09RuleSpec{{Kind: "recording", Name: "a", HasLabels: true, Labels: [][2]string{{"team", "y"}}}, {Kind: "recording", Name: "b", HasLabels: true, Labels: [][2]string{{"other", "z"}}}}}}})
 	for i := 0; i < ns; i++ {
 		sc := c09Scenario{Cmd: pick(r, []string{"lint", "lint", "ci"}), Config: c09GenConfig(r, 1+r.Intn(4))}
+		focused := i%2 == 1
+		if focused {
+			// one condition kind per rule block, rotating over the nine kinds; files with several labels/annotations per rule
+			sc.Config = c09GenFocusConfig(r, 3+r.Intn(3), i/2*5)
+		}
 		for _, p := range c09Paths[:1+r.Intn(3)] {
-			sc.Files = append(sc.Files, c09GenFile(r, p, r.Intn(3) == 0))
+			if focused {
+				sc.Files = append(sc.Files, c09GenFileRich(r, p, r.Intn(3) == 0))
+			} else {
+				sc.Files = append(sc.Files, c09GenFile(r, p, r.Intn(3) == 0))
+			}
 		}
 		scens = append(scens, sc)
 	}
@@ -856,6 +996,7 @@ func c09Binary(r *rand.Rand, rep *runReport, cwd string, n int) {
 				rep.hist("case=marker")
 				rep.hist("marker:cmd=" + sc.Cmd)
 				rep.hist(fmt.Sprintf("marker:applies=%v", want))
+				c09CondHist(rep, sc.Cmd, rule, ev.subject)
 				if want != got {
 					what := fmt.Sprintf("rule block %d %s applied to rule %q (%s, lines %d-%d): pint=%v, documented semantics=%v",
 						k, sc.Cmd, e.Rule.Name(), e.Path.Name, e.Rule.Lines.First, e.Rule.Lines.Last, got, want)
@@ -868,6 +1009,71 @@ func c09Binary(r *rand.Rand, rep *runReport, cwd string, n int) {
 	}
 	sort.Strings(rep.Notes)
 	rep.sample(map[string]any{"scenario": scens[len(scens)-1]})
+}
+
+// c09CondHist: measured distribution of the marker evaluations per condition kind and verdict of that single condition,
+// plus the adversarial strata of the key/value conditions (key pattern matching several names with mixed value verdicts).
+func c09CondHist(rep *runReport, cmd string, rule config.Rule, s c09Subject) {
+	one := func(role string, m config.Match) {
+		single := func(kind string, mm config.Match) {
+			rep.hist(fmt.Sprintf("marker:cond=%s/%s=%v", role, kind, c09AllConds(cmd, mm, s)))
+		}
+		if m.Command != nil {
+			single("command", config.Match{Command: m.Command})
+		}
+		if len(m.State) > 0 {
+			single("state", config.Match{State: m.State})
+		}
+		if m.Kind != "" {
+			single("kind", config.Match{Kind: m.Kind})
+		}
+		if m.Path != "" {
+			single("path", config.Match{Path: m.Path})
+		}
+		if m.Name != "" {
+			single("name", config.Match{Name: m.Name})
+		}
+		if m.For != "" {
+			single("for", config.Match{For: m.For})
+			if s.For != nil {
+				if _, err := model.ParseDuration(*s.For); err != nil {
+					rep.hist("marker:for-rule-value-not-a-duration")
+				}
+			}
+		}
+		if m.KeepFiringFor != "" {
+			single("keep_firing_for", config.Match{KeepFiringFor: m.KeepFiringFor})
+		}
+		mixed := func(kp, vp string, kvs [][2]string) (n int, t int) {
+			for _, kv := range kvs {
+				if c09Whole(kp, kv[0]) {
+					n++
+					if c09Whole(vp, kv[1]) {
+						t++
+					}
+				}
+			}
+			return
+		}
+		if m.Label != nil {
+			single("label", config.Match{Label: m.Label})
+			if n, t := mixed(m.Label.Key, m.Label.Value, s.Labels); n >= 2 && t >= 1 && t < n {
+				rep.hist("marker:label-key-matches-several-mixed-values")
+			}
+		}
+		if m.Annotation != nil {
+			single("annotation", config.Match{Annotation: m.Annotation})
+			if n, t := mixed(m.Annotation.Key, m.Annotation.Value, s.Annotations); n >= 2 && t >= 1 && t < n {
+				rep.hist("marker:annotation-key-matches-several-mixed-values")
+			}
+		}
+	}
+	for _, m := range rule.Match {
+		one("match", m)
+	}
+	for _, m := range rule.Ignore {
+		one("ignore", m)
+	}
 }
 
 // class predicate of known finding C09-group-label-aliasing: the rule block has a label condition and the file's
